@@ -132,7 +132,9 @@ class ResponseEncoder:
             if isinstance(chunk, str):
                 try:
                     chunk = chunk.encode(encoding, self.errors)
-                except (LookupError, UnicodeError):
+                except (LookupError, ValueError):
+                    # UnicodeError is a ValueError; so is the error for
+                    # a charset name with a NUL in it.
                     return False
             body.append(chunk)
         self.body = body
